@@ -132,6 +132,7 @@ DigitVal(d) == CASE d = "0" -> 0 [] d = "1" -> 1 [] d = "2" -> 2 [] d = "3" -> 3
 RECURSIVE ToksFrom(_, _)
 ToksFrom(s, i) ==
   IF i > Len(s) THEN << >>
+  ELSE IF SubSeq(s, i, i) = "~" /\ i + 3 <= Len(s) /\ SubSeq(s, i + 1, i + 1) = "x" THEN <<SubSeq(s, i, i + 3)>> \o ToksFrom(s, i + 4)   \* ~xHH: the byte HH
   ELSE IF SubSeq(s, i, i) = "~" /\ i < Len(s) THEN <<SubSeq(s, i, i + 1)>> \o ToksFrom(s, i + 2)
   ELSE <<SubSeq(s, i, i)>> \o ToksFrom(s, i + 1)
 Toks(s) == ToksFrom(s, 1)            \* a string as a sequence of characters
